@@ -73,7 +73,7 @@ Blank == [up |-> FALSE, term |-> 0, vote |-> 0, role |-> "F", lead |-> 0, log |-
           rq |-> {}]     \* requests issued HERE: [ctx, floor] (floor = highest index reported committed by then)
 NoDur == [hs |-> NoHS, shs |-> NoHS, log |-> <<>>, off |-> 0, offTerm |-> 0, snap |-> NoSnap]
 NoRd  == [has |-> FALSE, first |-> 0, ents |-> <<>>, hsset |-> FALSE, hs |-> NoHS, snap |-> NoSnap,
-          msgs |-> {}, reads |-> {}, hfrom |-> 0, hto |-> 0, nl |-> FALSE, soft |-> FALSE, sync |-> FALSE,
+          msgs |-> {}, reads |-> {}, hfrom |-> 0, hto |-> 0, nl |-> FALSE, soft |-> FALSE, sync |-> "design",
           pents |-> FALSE, phs |-> FALSE, sent |-> FALSE, confs |-> 0]
 
 -------------------------------------------------------------------------------
@@ -293,7 +293,9 @@ HandleReadAck(i, s, m) ==
   LET ks == {k \in 1..Len(s.ro) : s.ro[k].ctx = m.hint} IN
   IF ks = {} THEN Ignore(s)
   ELSE LET k == SetMin(ks)
-           acks2 == s.ro[k].acks \cup {m.from}
+           \* an ack that does not count is not recorded either (it would only split the search of the
+           \* trace validation into states that differ in nothing observable)
+           acks2 == IF Mut = "readlearnerack" \/ m.from \in s.voters THEN s.ro[k].acks \cup {m.from} ELSE s.ro[k].acks
            counted == IF Mut = "readlearnerack" THEN acks2 ELSE acks2 \cap s.voters
        IN IF Cardinality(counted) + 1 < QuorumN(s.voters)
           THEN Res([s EXCEPT !.ro[k].acks = acks2], {})
@@ -398,12 +400,7 @@ MkReady(s, k) ==
                   !.hsset = hs # s.phs, !.hs = IF hs # s.phs THEN hs ELSE NoHS,
                   !.snap = s.psnap, !.msgs = s.out, !.reads = s.rs,
                   !.hfrom = IF k >= HFrom(s) THEN HFrom(s) ELSE 0, !.hto = IF k >= HFrom(s) THEN k ELSE 0,
-                  !.soft = soft, !.nl = soft /\ s.role = "L",
-                  \* Ready.MustSync as node.newReady computes it (relative to the hard state of the last
-                  \* advanced Ready, empty after a restart); a Ready with a snapshot is persisted synchronously
-                  !.sync = Last(s) > s.stable \/ hs.term # s.phs.term \/ hs.vote # s.phs.vote \/ s.psnap.idx > 0]
-\* what the design REQUIRES to be synced (raft paper: term, vote, entries; plus a snapshot); syncing more is fine
-DesignMustSync(d, r) == Len(r.ents) > 0 \/ r.snap.idx > 0 \/ (r.hsset /\ (r.hs.term # d.hs.term \/ r.hs.vote # d.hs.vote))
+                  !.soft = soft, !.nl = soft /\ s.role = "L"]
 ReadyNonEmpty(r) == r.soft \/ r.hsset \/ r.snap.idx > 0 \/ Len(r.ents) > 0 \/ r.hto > 0 \/ r.msgs # {} \/ r.reads # {}
 \* a ReadState handed out with an index below what was reported committed before its request was issued
 StaleReads(s, reads) == {r \in reads : \E q \in s.rq : q.ctx = r.ctx /\ r.idx < q.floor}
@@ -430,16 +427,21 @@ StoreEnts(d, first, ents) ==
        IN IF Len(e2) = 0 \/ f2 > DLast(d) + 1 THEN d
           ELSE [d EXCEPT !.log = SubSeq(d.log, 1, f2 - 1 - d.off) \o e2]
 PersistEnts(d, r) == StoreEnts(StoreSnap(d, r.snap), r.first, r.ents)
-\* MustSync by the raft paper: term, vote and entries must be durable before messages leave
+\* Which hard state writes are durable (survive a power loss).
+\*  - r.sync = "design" (model checking, MkReady): the DESIGN rule of the raft paper - term, vote and
+\*    entries (and a snapshot) must be durable before messages leave; a commit-only write need not be.
+\*  - r.sync = "yes" / "no" (trace validation, set by ReadyT from the logged Ready.MustSync of the real
+\*    node; a Ready with a snapshot is written synchronously by the driver): an OBSERVATION of what the
+\*    code did, never a demand.  The code may sync more than the design requires (the first hard state
+\*    after RestartNode: MustSync is relative to the last advanced hard state, empty then).  If it syncs
+\*    LESS, the trace is still followed faithfully - crash(lost) falls back to what really was durable -
+\*    and the defect shows by its consequence on the following lines (VoteOncePerTerm, ElectionSafety,
+\*    LeaderCompleteness, DurableCommit), which is what the directed scenario `lostvote` provokes.
 PersistHS(d, r) == LET h == IF r.hsset THEN r.hs ELSE d.hs
-                       must == Len(r.ents) > 0 \/ h.term # d.hs.term \/ h.vote # d.hs.vote \/ r.snap.idx > 0
+                       must == IF r.sync = "design"
+                               THEN Len(r.ents) > 0 \/ h.term # d.hs.term \/ h.vote # d.hs.vote \/ r.snap.idx > 0
+                               ELSE r.sync = "yes"
                    IN [d EXCEPT !.hs = h, !.shs = IF must THEN h ELSE @]
-\* (Known weakness, round 4: the code also syncs the first hard state after a restart - MustSync is
-\* relative to the last ADVANCED hard state, empty after a restart - while this rule is relative to the
-\* durable state.  After such a write, an un-synced commit-only write and a power loss, the driver rolls
-\* back to a newer commit index than this rule expects: one thorough-tier false alarm at `restart` in
-\* about 180 traces.  Taking Ready.MustSync from the trace with DesignMustSync as a lower bound is the
-\* fix; the first attempt made quick runs fail and was reverted for lack of time.)
 
 \* ---- node.Advance
 AdvanceS(s, r) ==
